@@ -123,6 +123,26 @@ func window(calls []sysCall) (win []sysCall, resultWrite sysCall, ok bool) {
 	return nil, sysCall{}, false
 }
 
+// windowOpen returns the calls after BEGIN up to RESULT - or up to the end of the trace when the
+// child did not get that far (it was killed).
+func windowOpen(calls []sysCall) []sysCall {
+	var win []sysCall
+	in := false
+	for _, c := range calls {
+		if c.Name == "write" && strings.HasPrefix(c.Line, `write(1, "BEGIN\n"`) {
+			in = true
+			continue
+		}
+		if in && c.Name == "write" && strings.HasPrefix(c.Line, `write(1, "RESULT`) {
+			break
+		}
+		if in {
+			win = append(win, c)
+		}
+	}
+	return win
+}
+
 // fsCalls are the calls whose failure or interruption the property quantifies over.
 var fsCalls = map[string][]string{
 	"newfstatat": {"EIO", "EACCES"},
@@ -233,7 +253,7 @@ func fired(f Fault, o runOut) bool {
 }
 
 // monitor checks the third sentence of C04 on an un-faulted trace: new contents go
-// to a separate file created exclusively in the same directory, are flushed to
+// to a separate file (any other file: the property fixes neither its place nor its name), are flushed to
 // stable storage before they replace the live file, which is never written in place.
 func monitor(win []sysCall, live string) *h.Violation {
 	openRE := regexp.MustCompile(`^openat\(AT_FDCWD, "([^"]*)", ([A-Z_|0-9x]+)(?:, [0-7]+)?\)\s+= (-?\d+)`)
@@ -254,12 +274,8 @@ func monitor(win []sysCall, live string) *h.Violation {
 				return h.V("live-file-never-written-in-place", "the live file was opened for writing: %s", c.Line)
 			}
 			if writeMode && fd >= 0 {
-				if filepath.Dir(name) != filepath.Dir(live) {
-					return h.V("new-contents-in-separate-file-same-directory", "payload file %q is not in the live file's directory", name)
-				}
-				if !strings.Contains(flags, "O_CREAT") || !strings.Contains(flags, "O_EXCL") {
-					return h.V("new-contents-in-separate-file-same-directory", "temporary file opened without O_CREAT|O_EXCL: %s", c.Line)
-				}
+				// any other file will do as the separate file: the property does not say where it
+				// lives, how it is named, or that it is created exclusively
 				tmpFD, tmpName = fd, name
 			}
 		case "write":
@@ -293,6 +309,30 @@ func monitor(win []sysCall, live string) *h.Violation {
 	}
 	if !renamed {
 		return h.V("replaces-the-live-file-by-rename", "the save did not end in a rename onto the live file (temporary %q)", tmpName)
+	}
+	return nil
+}
+
+// monitorInPlace checks only the clause that must hold on EVERY run, faulted or not: the live file
+// is never opened for writing, truncated, or written through a descriptor of its own.
+func monitorInPlace(calls []sysCall, live string) *h.Violation {
+	openRE := regexp.MustCompile(`^openat\(AT_FDCWD, "([^"]*)", ([A-Z_|0-9x]+)(?:, [0-7]+)?\)\s+= (-?\d+)`)
+	for _, c := range calls {
+		switch c.Name {
+		case "openat":
+			m := openRE.FindStringSubmatch(c.Line)
+			if m == nil {
+				continue
+			}
+			flags := m[2]
+			if m[1] == live && (strings.Contains(flags, "O_WRONLY") || strings.Contains(flags, "O_RDWR") || strings.Contains(flags, "O_TRUNC") || strings.Contains(flags, "O_APPEND")) {
+				return h.V("live-file-never-written-in-place", "the live file was opened for writing: %s", c.Line)
+			}
+		case "truncate":
+			if strings.Contains(c.Line, `"`+live+`"`) {
+				return h.V("live-file-never-written-in-place", "the live file was truncated: %s", c.Line)
+			}
+		}
 	}
 	return nil
 }
